@@ -70,8 +70,8 @@ class P(vlib.Prop):
     rule = ("l3m4/profiles: random payload trees (0-3 resources x 0-3 scopes x [0-3 metrics x] 0-5 items, empty "
             "containers, items of 11 size classes crossing the 1/2-byte varint boundary, all 5 metric kinds + the "
             "empty kind, repeated contexts), optional second request (merge), cached size warm or unknown, both "
-            "sizers, max_size 0 / tiny / around the total / (bytes) at the single-item boundary and inside the F5 "
-            "region; the REAL MergeSplit is called (after a guarded run of the real split loop on a deep copy "
+            "sizers, max_size 0 / tiny / around the total / (bytes) at the single-item boundary, inside the F5 "
+            "region and (metrics) within one byte of the size of the request cut inside a metric; the REAL MergeSplit is called (after a guarded run of the real split loop on a deep copy "
             "decided termination) and every returned request is read back: cached size, recomputed size, nested "
             "shape with ids and contexts; plus 160 end-to-end histories of real logs/traces requests through the real "
             "exporter (queue + batcher, bytes/items sizer, min_size at or below max_size) under a conservation oracle.  "
